@@ -59,9 +59,7 @@ theorem getAt_eq (t : List Int) (i : Nat) (h : i < t.length) : getAt t i = .ok t
 example : (1 : Nat) < [4, 5, 6].length := by decide
 
 /-- the index-sequence expansion `get<Is>(t)...` yields all elements in order and never leaves the tuple -/
-theorem getAll_eq (t : List Int) : getAll t = .ok t := by
-  have := getFrom_drop t t.length 0 (by omega)
-  simpa [getAll] using this
+theorem getAll_eq (t : List Int) : getAll t = .ok t := getAll_ok t
 
 /-! ## relations -/
 
@@ -73,9 +71,6 @@ theorem pair_lt_iff (lt1 : α → α → Bool) (lt2 : β → β → Bool) (a b :
     pairLt lt1 lt2 a b = true ↔ (lt1 a.1 b.1 = true ∨ (lt1 b.1 a.1 = false ∧ lt2 a.2 b.2 = true)) := by
   unfold pairLt
   cases h1 : lt1 a.1 b.1 <;> cases h2 : lt1 b.1 a.1 <;> cases h3 : lt2 a.2 b.2 <;> simp
-
-/-- an order relation that never holds in both directions -/
-def Asymm (lt : α → α → Bool) : Prop := ∀ x y, lt x y = true → lt y x = false
 
 /-- All six relations of the header equal the C++20 definition through the three-way comparison, for every
     element type whose three-way comparison is synthesised from an asymmetric `<` (every type without
@@ -101,19 +96,6 @@ example : Asymm (fun a b : Int => decide (a < b)) := by
 theorem pair_rels_unordered_counterexample :
     Spec.modelRels Spec.dEq Spec.dEq Spec.dLt Spec.dLt (Spec.NaN, 1) (1, 2)
       ≠ Spec.pairRels Spec.dEq Spec.dEq Spec.dCmp Spec.dCmp (Spec.NaN, 1) (1, 2) := by decide
-
-/-- a strict total order whose equivalence is `eq` -/
-structure StrictTotal (eq lt : α → α → Bool) : Prop where
-  irrefl : ∀ x, lt x x = false
-  trans : ∀ x y z, lt x y = true → lt y z = true → lt x z = true
-  tri : ∀ x y, lt x y = true ∨ eq x y = true ∨ lt y x = true
-  eq_iff : ∀ x y, eq x y = true ↔ x = y
-
-theorem StrictTotal.asymm {eq lt : α → α → Bool} (h : StrictTotal eq lt) : Asymm lt := by
-  intro x y hxy
-  cases hyx : lt y x with
-  | false => rfl
-  | true => have := h.trans x y x hxy hyx; rw [h.irrefl] at this; cases this
 
 /-- exactly one of `a < b`, `a == b`, `b < a` holds -/
 theorem pair_trichotomy {eq1 lt1 : α → α → Bool} {eq2 lt2 : β → β → Bool} (h1 : StrictTotal eq1 lt1)
@@ -208,16 +190,6 @@ theorem pair_lt_trans {eq1 lt1 : α → α → Bool} {eq2 lt2 : β → β → Bo
       refine ⟨?_, h2.trans _ _ _ h g⟩
       rw [he, ge]; exact h1.irrefl _
 
-/-- the equality fold of tuple `operator==` decides element-wise equality -/
-theorem eqFold_iff {eq : α → α → Bool} (heq : ∀ x y, eq x y = true ↔ x = y) :
-    ∀ (a b : List α), a.length = b.length → (eqFold eq a b = true ↔ a = b)
-  | [], [], _ => by simp [eqFold]
-  | x :: xs, y :: ys, h => by
-    have ih := eqFold_iff heq xs ys (by simpa using h)
-    simp [eqFold, heq, ih]
-  | [], _ :: _, h => by simp at h
-  | _ :: _, [], h => by simp at h
-
 /-- tuple `==` (arity >= 1, equal arity as the `requires` clause demands) is equality of the element lists -/
 theorem tuple_eq_iff (a b : List Int) (hlen : a.length = b.length) (hne : a ≠ []) :
     tupleEq (fun x y : Int => x == y) a b = Spec.tupleEq a b := by
@@ -236,14 +208,6 @@ example : ([1, 2] : List Int).length = [1, 3].length ∧ ([1, 2] : List Int) ≠
 end rel
 
 /-! ## tuple_cat / apply -/
-
-theorem concat_eq (t1 t2 : List Int) : concat t1 t2 = .ok (t1 ++ t2) := by
-  simp [concat, getAll_eq, bind, Except.bind]
-
-theorem catGo_eq : ∀ (ts : List (List Int)) (r : List Int), catGo r ts = .ok (r ++ ts.flatten)
-  | [], r => by simp [catGo, getAll_eq]
-  | t :: ts, r => by
-    simp [catGo, concat_eq, bind, Except.bind, catGo_eq ts (r ++ t), List.append_assoc]
 
 /-- `tuple_cat` of one or more tuples is their concatenation (all elements, in order); no element read
     leaves its tuple.  (`tuple_cat()` with no argument does not exist in the header.) -/
